@@ -70,7 +70,7 @@ class Campaign:
         if self.cases is not None:
             cmd += ["--cases", str(self.cases)]
         env = dict(os.environ, TZ="UTC", LC_ALL="C")
-        r = subprocess.run(cmd, capture_output=True, text=True, env=env)
+        r = subprocess.run(cmd, capture_output=True, text=True, errors="replace", env=env)
         self.stderr = r.stderr
         if r.returncode != 0 or not os.path.exists(os.path.join(od, "summary.json")):
             raise RuntimeError("harness failed (%s): rc=%d\n%s" % (" ".join(cmd), r.returncode, r.stderr[-2000:]))
@@ -99,7 +99,7 @@ def write_case(path, module, phase, choices, key="", detail="", case="", kase=""
 def replay_case(harness, module, path, libcfg="plain"):
     """returns (code, key, text). code 0 ok, 1 violation"""
     env = dict(os.environ, TZ="UTC", LC_ALL="C")
-    r = subprocess.run([harness, "--module", module, "--libcfg", libcfg, "--replay", path], capture_output=True, text=True, env=env)
+    r = subprocess.run([harness, "--module", module, "--libcfg", libcfg, "--replay", path], capture_output=True, text=True, errors="replace", env=env)
     key = None
     for l in r.stdout.splitlines():
         if l.startswith("key: "):
@@ -110,7 +110,7 @@ def replay_case(harness, module, path, libcfg="plain"):
 def shrink_case(harness, module, path, outpath, libcfg="plain"):
     env = dict(os.environ, TZ="UTC", LC_ALL="C")
     r = subprocess.run([harness, "--module", module, "--libcfg", libcfg, "--shrink", path, "--shrink-out", outpath],
-                       capture_output=True, text=True, env=env)
+                       capture_output=True, text=True, errors="replace", env=env)
     return r.returncode == 0 and os.path.exists(outpath)
 
 
